@@ -106,6 +106,20 @@ fn check_inner(pattern: &str, text: &str) -> Option<String> {
             _ => return Some(format!("pos {}: find_from_pos and captures_from_pos disagree", pos)),
         }
     }
+    // C09 under a configured backtrack limit: the three entry points run the same search, so they agree on Ok / Err too
+    for bl in [1usize, 3, 30] {
+        if let Ok(rl) = fancy_regex::RegexBuilder::new(pattern).backtrack_limit(bl).build() {
+            let f = rl.find(text).map(|m| m.map(|m| (m.start(), m.end()))).map_err(|_| ());
+            let i = rl.is_match(text).map_err(|_| ());
+            let c = rl.captures(text).map(|c| c.map(|c| c.get(0).map(|m| (m.start(), m.end())))).map_err(|_| ());
+            if i != f.map(|m| m.is_some()) {
+                return Some(format!("backtrack_limit {}: is_match = {:?} but find = {:?}", bl, i, f));
+            }
+            if c != f.map(|m| m.map(Some)) {
+                return Some(format!("backtrack_limit {}: captures.get(0) = {:?} but find = {:?}", bl, c, f));
+            }
+        }
+    }
     // replace must not panic and must keep non-matching text
     let _ = re.try_replacen(text, 0, "[$0]");
     let _ = re.try_replacen(text, 0, fancy_regex::NoExpand("x"));
